@@ -237,6 +237,17 @@ theorem wc_recoverable_partial (fs : Fs) (h : Nat) (P : List Nat) (steps : List 
   obtain ⟨i1, i2⟩ := prefix_preserves_wc steps fs h inv wc wo (k - 1)
   exact wcStatus_of_inv i1 i2
 
+/-- The working-copy state files are never left in the one combination that would be silently
+    wrong: `checkout` naming the loaded head while `tree_state` records another tree.
+    (They are (old op, old tree), (old op, new tree) — classified fresh by the tree comparison of
+    `check_stale` — or (new op, new tree); `tree_state` is saved before `checkout`.) -/
+theorem wc_consistent (fs : Fs) (h : Nat) (P : List Nat) (steps : List Step)
+    (inv : RepoInv fs fs h P) (wc : WcInv fs h) (wo : wellOrderedWc fs steps = true) (k : Nat)
+    (l : Loaded) (hl : load (crash fs steps k) = some l) (hw : (crash fs steps k).wcOp = l.head) :
+    (crash fs steps k).wcTree = l.tree := by
+  obtain ⟨i1, i2⟩ := prefix_preserves_wc steps fs h inv wc wo (k - 1)
+  exact wc_consistent_of_inv i1 i2 l hl hw
+
 /-- `workspace update-stale` from such a state: every crash point *during the recovery* is again
     fresh-or-stale with the same loaded repository, and the completed recovery is fresh. -/
 theorem update_stale_recovers (fs0 fs : Fs) (h : Nat) (P : List Nat) (inv : RepoInv fs0 fs h P)
@@ -245,9 +256,14 @@ theorem update_stale_recovers (fs0 fs : Fs) (h : Nat) (P : List Nat) (inv : Repo
           (wcStatus (crash fs (updateStaleSteps h l.tree files) k) = .fresh ∨
            wcStatus (crash fs (updateStaleSteps h l.tree files) k) = .stale)) ∧
     wcStatus (run fs (updateStaleSteps h l.tree files)) = .fresh := by
-  have wow := updateStale_wellOrderedWc fs h l.tree files hh
   have invS : RepoInv fs fs h P :=
     ⟨inv.heads, inv.opRec, inv.pub, fun _ _ hk => hk, fun _ _ hk => hk⟩
+  have htree : headTree fs h = some l.tree := by
+    obtain ⟨r, t, hr, ht, hload⟩ := load_of_inv inv
+    rw [hl] at hload
+    cases hload
+    rw [headTree_of_look hr, ht]
+  have wow := updateStale_wellOrderedWc fs h l.tree files hh htree
   have hno : (updateStaleSteps h l.tree files).all noHa = true := by
     simp [updateStaleSteps, noHa]
   constructor
@@ -283,7 +299,8 @@ theorem cmdSteps_disciplined (fs : Fs) (h : Nat) (txs : List Tx) (hh : fs.heads 
 /-- … hence every crash point of a whole command is safe (repo loads at the last published
     operation, working copy fresh or stale). -/
 theorem cmd_crash_safe (fs : Fs) (h : Nat) (P : List Nat) (txs : List Tx) (inv : RepoInv fs fs h P)
-    (hh : fs.heads = [h]) (hw : fs.wcOp = h) (fr : FreshTxs fs h txs) (k : Nat) :
+    (hh : fs.heads = [h]) (hw : fs.wcOp = h) (ht : headTree fs h = some fs.wcTree)
+    (fr : FreshTxs fs h txs) (k : Nat) :
     (∃ l, load (crash fs (cmdSteps h txs) k) = some l ∧
       l.head = headAfter h ((cmdSteps h txs).take (k - 1)) ∧
       (∀ a ∈ P, ∃ n, isAnc (crash fs (cmdSteps h txs) k).ops n [l.head] a = true)) ∧
@@ -291,7 +308,7 @@ theorem cmd_crash_safe (fs : Fs) (h : Nat) (P : List Nat) (txs : List Tx) (inv :
       wcStatus (crash fs (cmdSteps h txs) k) = .stale) := by
   obtain ⟨w1, w2⟩ := cmdSteps_disciplined fs h txs hh hw fr
   obtain ⟨l, hl, hhd, hp, _, _⟩ := crash_prefix_loads fs h P _ inv w2 k
-  exact ⟨⟨l, hl, hhd, hp⟩, wc_recoverable_partial fs h P _ inv (Or.inl hw) w1 k⟩
+  exact ⟨⟨l, hl, hhd, hp⟩, wc_recoverable_partial fs h P _ inv (Or.inl ⟨hw, hh, ht⟩) w1 k⟩
 
 /-! ## The discipline is necessary: a writer that publishes before writing the operation file
     leaves an unloadable repository at some crash point (the model notices the mutation). -/
@@ -313,7 +330,7 @@ theorem initFs_inv3 : RepoInv (initFs 3 0 0 2 0) (initFs 3 0 0 2 0) 2 [0, 1, 2] 
 def exTxs : List Tx := [⟨3, 1, 1, true, 2, true⟩, ⟨4, 2, 1, true, 0, false⟩]
 
 example : FreshTxs (initFs 3 0 0 2 0) 2 exTxs := by
-  refine ⟨⟨by decide, ?_, ?_, ?_⟩, ⟨by decide, ?_, ?_, ?_⟩, trivial⟩
+  refine ⟨⟨by decide, ?_, ?_, ?_, by decide⟩, ⟨by decide, ?_, ?_, ?_, by decide⟩, trivial⟩
   · exact (notMentioned_iff _ _).mp (by decide)
   · intro r' hr'
     have : look 3 (initFs 3 0 0 2 0).ops = none := by decide
@@ -334,7 +351,10 @@ example : FreshTxs (initFs 3 0 0 2 0) 2 exTxs := by
     cases ht'
 
 example : wellOrderedWc (initFs 3 0 0 2 0) (cmdSteps 2 exTxs) = true := by decide
-example : WcInv (initFs 3 0 0 2 0) 2 := Or.inl rfl
+example : WcInv (initFs 3 0 0 2 0) 2 := Or.inl ⟨rfl, rfl, by decide⟩
+-- the mutation "checkout saved before tree_state" violates the working-copy discipline
+example : wellOrderedWc (initFs 3 0 0 2 0)
+    [.wv 1 1, .wo 3 ⟨[2], 1⟩, .wl 3, .ha 3, .hr 2, .wf, .sc 3, .st 1] = false := by decide
 -- the crash points of `jj new bm`-like traces: before / stale / fresh-after-tree_state
 example : (load (crash (initFs 3 0 0 2 0) (cmdSteps 2 exTxs) 5)).map (·.head) = some 2 := by decide
 example : wcStatus (crash (initFs 3 0 0 2 0) (cmdSteps 2 exTxs) 8) = .stale := by decide
